@@ -154,7 +154,7 @@ func c08(run *ev.Run, tier string) {
 	mkfile("tree/a.txt", "a\n")
 	mkfile("tree/sub/b.txt", "b\n")
 	var checked int64
-	types := []string{"file", "config", "config|noreplace", "config|missingok", "ghost", "doc", "licence", "license", "readme", "dir", "symlink", "tree"}
+	types := []string{"file", "config", "config|noreplace", "config|missingok", "ghost", "ghost:missing-src", "doc", "licence", "license", "readme", "dir", "symlink", "tree"}
 	tags := append([]string{""}, formats...)
 	type cell struct{ t, tag, f string }
 	var cells []cell
@@ -179,6 +179,12 @@ func c08(run *ev.Run, tier string) {
 		c := cells[i]
 		s := base()
 		e := &gen.Content{Type: c.t, Packager: c.tag, Dst: "/etc/typ/entry"}
+		if c.t == "ghost:missing-src" {
+			// the run-time file a ghost stands for may be named as src; it need not
+			// exist on the build host
+			c.t = "ghost"
+			e.Type, e.Src = "ghost", "/nonexistent-verif/run/typ.pid"
+		}
 		switch c.t {
 		case "dir":
 			e.Exp = []gen.Expect{{Dst: e.Dst, Kind: "dir"}}
